@@ -2080,6 +2080,9 @@ class Engine:
       c = self.ev(it, st)
       if isinstance(c, V) and c.t.kind == 'set' and c.meta != 'empty':
         return self.for_dict_items(s, st, idx, spec, over_set=c)
+      if isinstance(c, V) and c.t.kind == 'dict' and c.meta != 'empty':
+        # for k in d: the keys of d (each once)
+        return self.for_dict_items(s, st, idx, spec, over_set=V(Ty('set', [c.t.args[0]]), sv.d_keys(c)))
       if not isinstance(c, V) or c.t.kind != 'list':
         raise Unsupported('for over %r at line %d' % (getattr(c, 't', c), s.lineno))
       if c.meta == 'empty':
